@@ -215,10 +215,40 @@ def run_cases(ctx, n, tag):
             continue
         pred, ref, labels = gen_case(rng)
         groups = rand_groups(rng, labels if rng.random() < 0.85 else labels[:-1])
-        one_case(ctx, pred, ref, rand_cfg(rng), groups, f"{tag}{i}")
+        cfg = rand_cfg(rng)
+        if i % 7 == 3:
+            groups = beyond_dtype(rng, groups)
+            ctx.count("group_labels_beyond_image_dtype")
+        one_case(ctx, pred, ref, cfg, groups, f"{tag}{i}")
+
+
+def beyond_dtype(rng, groups, bits=8):
+    """group definitions are independent of the image dtype: give one group additional labels that do not fit the
+    dtype of the arrays and are congruent (mod 2^bits) to labels of the other groups"""
+    gs = [dict(g) for g in groups]
+    cand = [j for j, g in enumerate(gs) if not g["single"] and len(gs) > 1]
+    if not cand:
+        gs.append({"name": "extra_grp", "labels": [], "merge": False, "single": False})
+        cand = [len(gs) - 1]
+    k = rng.choice(cand)
+    others = sorted({l for j, g in enumerate(gs) if j != k for l in g["labels"]})
+    add = [(2 ** bits) * rng.choice([1, 1, 2]) + l for l in rng.sample(others, min(len(others), rng.randint(1, 3)))]
+    gs[k] = dict(gs[k], labels=sorted(set(gs[k]["labels"]) | set(add)))
+    return gs
 
 
 def corpus(ctx):
+    # a group of labels that do not fit the uint8 / uint16 images (an implant class absent from this cohort) next to the groups in use
+    for dt, off in ((np.uint8, 256), (np.uint16, 65536)):
+        ref = np.zeros((6, 10), dt)
+        ref[1:4, 1:4] = 1
+        ref[1:4, 6:9] = 2
+        pred = np.roll(ref, 1, axis=0)
+        gs = [{"name": "vertebra", "labels": [1, 2], "merge": False, "single": False},
+              {"name": "implant", "labels": [off + 1, off + 2], "merge": False, "single": False}]
+        for it in ("SEMANTIC", "UNMATCHED", "MATCHED"):
+            ctx.count("group_labels_beyond_image_dtype")
+            one_case(ctx, pred, ref, E.mk_cfg(it, ["IOU", "DSC"], matcher=E.naive("IOU", (1, 2)) if it != "MATCHED" else None), gs, "corpus.beyond-dtype")
     # no background voxel and the smallest label belongs to no group
     a = np.array([[1, 2, 3, 4], [1, 2, 3, 4]], np.uint8)
     gs = [{"name": "a", "labels": [2], "merge": False, "single": False}, {"name": "b", "labels": [3, 4], "merge": False, "single": False}]
